@@ -137,6 +137,23 @@ def showIo : IoErr → String
 def showStatus : ExitStatus → String
   | .complete c => s!"complete:{c}" | .overloaded => "overloaded" | .unknownRole => "unknownrole"
 
+/-! ## Cost of a handler script (for the handler fuel) -/
+
+def opCost : HOp → Nat
+  | .writeAll _ data => data.length + 1
+  | _ => 1
+
+def curCost (sub : HSub) (op : HOp) : Nat :=
+  match sub, op with
+  | .writeRest rd, .writeAll _ _ => rd.length + 1
+  | _, op => opCost op
+
+/-- fuel a script needs besides the bytes it reads: one unit per op, plus one per byte of a `writeAll` -/
+def scriptCost (h : HState) : Nat :=
+  match h.ops with
+  | [] => 0
+  | op :: rest => curCost h.sub op + (rest.map opCost).sum
+
 /-- Runs the handler until it suspends or returns (one poll of the handler future). -/
 def handlerPoll (fuel : Nat) (r : AReq) (h : HState) (e : Env) : AReq × HState × Env × HRes :=
   match fuel with
@@ -287,8 +304,9 @@ def pollConn (fuel : Nat) (c : Conn) : Conn × PRes :=
                 pollConn fuel { c with phase := .handler r hs, scripts := scripts, env := env' }
     | .handler r h =>
       -- model fuel for one poll of the handler: covers what is still to arrive AND what the stream
-      -- parser may already hold (`readAll` spends one unit per 64 buffered bytes)
-      match handlerPoll (1000 + c.env.tr.input.length * 4 + (c.env.segs.map (·.2.length)).sum * 4 + r.sp.cap * 4) r h c.env with
+      -- parser may already hold (`readAll` spends one unit per 64 buffered bytes), AND the cost of what is left of
+      -- the handler script (`scriptCost`): the fuel guard is unreachable for every script
+      match handlerPoll (1000 + c.env.tr.input.length * 4 + (c.env.segs.map (·.2.length)).sum * 4 + r.sp.cap * 4 + scriptCost h) r h c.env with
       | (r, h, e, .pending) => ({ c with phase := .handler r h, env := e }, .pending)
       | (_, _, e, .panic s) => ({ c with env := e }, .panic s)
       | (r, h, e, .done res) =>
